@@ -342,14 +342,32 @@ impl Kernel {
             });
         }
 
-        // wait for quiescence
+        // wait for quiescence; a watchdog turns "a task holds the baton for ever without reaching a
+        // yield point" (a real blocking primitive the shims do not cover, an endless loop) into a
+        // harness error instead of a hang
         let mut st = k.lock();
+        let mut last_steps = st.steps;
+        let mut last_progress = std::time::Instant::now();
+        let mut stalled = false;
         while !st.done {
-            st = match k.main_cv.wait(st) {
-                Ok(g) => g,
-                Err(p) => p.into_inner(),
+            st = match k.main_cv.wait_timeout(st, Duration::from_millis(500)) {
+                Ok((g, _)) => g,
+                Err(p) => p.into_inner().0,
             };
+            if st.steps != last_steps {
+                last_steps = st.steps;
+                last_progress = std::time::Instant::now();
+            } else if last_progress.elapsed() > Duration::from_secs(20) {
+                stalled = true;
+                st.error = Some(format!(
+                    "run stalled for 20 s of wall clock at step {} (task {:?} holds the baton without reaching a scheduling point: a blocking primitive outside the shims, or an endless loop)",
+                    st.steps, st.current
+                ));
+                st.current = None;
+                st.done = true;
+            }
         }
+        let _ = stalled;
         // snapshot
         let tasks: Vec<TaskInfo> = st.tasks.iter().map(|t| t.info.clone()).collect();
         let schedule = st.record.clone();
